@@ -382,6 +382,7 @@ func (idx *IVFPQIndex) Remove(vector VectorNode) error {
 	}
 	alreadyDeleted := idx.deletedNodes.Contains(id)
 	idx.mu.RUnlock()
+	verifPoint("ivfpq:remove:window")
 
 	// Fast-fail validation outside of write lock
 	if !exists {
